@@ -269,6 +269,9 @@ impl Number {
     }
 
     pub fn modulo(&self, rhs: &Number) -> Option<Number> {
+        if let Some(rhs) = rhs.integer_rational_as_fixnum() {
+            return self.modulo(&rhs);
+        }
         match self % rhs {
             Some(num) => &(&num + rhs) % rhs,
             None => None,
@@ -810,10 +813,31 @@ impl Number {
     /// The spec only defines this function for integer inputs. Since that includes integral floats,
     /// we define quotient over all floats with the expectation that the caller can check the
     /// inputs for strict conformance.
+    /// An integer-valued rational as the fixnum it denotes, so that integer
+    /// division sees integers rather than fractions.
+    fn integer_rational_as_fixnum(&self) -> Option<Number> {
+        match self {
+            Number::Rational(num) if num.is_integer() => {
+                Some(Number::Fixnum(num.to_integer() as i64))
+            }
+            _ => None,
+        }
+    }
+
     pub fn quotient(&self, rhs: &Self) -> Option<Number> {
+        if let Some(lhs) = self.integer_rational_as_fixnum() {
+            return lhs.quotient(rhs);
+        }
+        if let Some(rhs) = rhs.integer_rational_as_fixnum() {
+            return self.quotient(&rhs);
+        }
         match self {
             Number::Fixnum(lhs) => match rhs {
-                Number::Fixnum(rhs) => Some((lhs / rhs).into()),
+                // i64::MIN / -1 does not fit in a fixnum
+                Number::Fixnum(rhs) => match i64::checked_div(*lhs, *rhs) {
+                    Some(num) => Some(num.into()),
+                    None => Some((BigInt::from(*lhs) / rhs).into()),
+                },
                 Number::BigInt(rhs) => Some((BigInt::from(*lhs) / &**rhs).into()),
                 Number::Float(rhs) => lhs.to_f64().map(|lhs| (lhs / rhs).trunc().into()),
                 Number::Rational(rhs) => {
@@ -874,9 +898,16 @@ impl Rem for &Number {
     /// The spec only defines remainder for integers but this operation is also used by other
     /// functions that deal with numbers of all types internally.
     fn rem(self, rhs: Self) -> Self::Output {
+        if let Some(lhs) = self.integer_rational_as_fixnum() {
+            return &lhs % rhs;
+        }
+        if let Some(rhs) = rhs.integer_rational_as_fixnum() {
+            return self % &rhs;
+        }
         match self {
             Number::Fixnum(lhs) => match rhs {
-                Number::Fixnum(rhs) => Some((lhs % rhs).into()),
+                // i64::MIN % -1 overflows although the remainder is zero
+                Number::Fixnum(rhs) => Some(i64::checked_rem(*lhs, *rhs).unwrap_or(0).into()),
                 Number::BigInt(rhs) => Some((BigInt::from(*lhs) % &**rhs).into()),
                 Number::Float(rhs) => Some((*lhs as f64 % rhs).into()),
                 Number::Rational(rhs) => {
